@@ -145,6 +145,10 @@ where
         // an empty state.
         if self.is_empty() {
             self.clear();
+        } else {
+            // Popping shrinks the container: the consumed prefix may now
+            // exceed half of it.
+            self.maybe_slide();
         }
 
         self.check_rep();
